@@ -10,7 +10,8 @@ def plan(tier):
             "orf_minlen_boundary", "orf_nonstandard_codons", "orf_shorter_than_codon", "nontrivial",
             "compl_all_256_bytes", "std_alphabets", "alpha_contains_byte_0", "alpha_contains_byte_255",
             "alpha_empty", "alpha_all_256", "alpha_word_with_planted_symbol", "gc_empty_and_single",
-            "gc3_len_not_multiple_of_3"],
+            "gc3_len_not_multiple_of_3", "orf_codons_with_nul_and_suffix_heads",
+            "more_than_2p24_gc_symbols", "more_than_2p24_gc3_symbols"],
         "rule": "orf: one run = one Finder (start/stop codon sets, min_len) applied to several sequences; all "
                 "sequences over {A,T,G} up to length 9 (10 thorough) with min_len rotating over 0,1,3,4,5,6, codon "
                 "soups up to 300 symbols for four start/stop sets (standard, three starts/one stop, arbitrary bytes, "
@@ -18,11 +19,15 @@ def plan(tier):
                 "nontrivial = find_all calls that reported at least one ORF. seqbasics: complement tables of all 256 "
                 "bytes and revcomp for DNA and RNA, alphabets from fixed and random byte multisets (incl. empty, "
                 "0, 255, all 256) with len/is_empty/max_symbol/symbols/is_word/ranks/transform/set operations, the "
-                "eight predefined alphabets, gc/gc3 content on sequences up to 300",
+                "eight predefined alphabets, gc/gc3 content on sequences up to 300 and on streamed repetitions of a short "
+                "unit (logged as unit + count, up to 5.1*10^7 symbols, more than 2^24 G/C symbols per call); orf also: "
+                "codon sets with 0x00 / blank / 0xFF bytes in every position, all sequences shorter than a codon, "
+                "heads equal to every proper suffix of every codon followed by an in-frame stop",
         "bounds": {"mc": "finder machine: all sequences over {A,T,G} up to length 9, start ATG, stops TAG/TGA/TAA, "
                          "min_len in {0,4} (thorough: length 10, starts ATG+GTG, min_len in {0,3,4,6}); complement "
                          "laws over all 256 bytes",
-                   "impl": "sequences <= 300, codon sets over arbitrary bytes, alphabets <= 256 symbols"},
+                   "impl": "sequences <= 300 (gc: repeated units up to 5.1*10^7 symbols), codon sets over arbitrary bytes, "
+                           "alphabets <= 256 symbols"},
         "assumptions": ["ndJsonDeserialize/TLC evaluate the TLA+ definitions faithfully",
                         "start and stop codon sets are disjoint (precondition)",
                         "gc fractions are projected by the harness to round(x*10^6); accepted when within "
